@@ -20,18 +20,25 @@ def run(chk, replay=None):
     shapes = os.path.join(w, "shapes.ndjson")
     nshapes, r = core.gen_shapes("gcd/GcdShapes.tla", "GcdShapes_%s.cfg" % ("thorough" if thorough else "quick"), shapes)
     chk.add_mc(r)
-    # (V) real code
+    # (V) real code; the thorough tier repeats the run on a build with debug assertions and overflow checks
     trace = os.path.join(w, "trace.ndjson")
-    core.run_driver(["c09", "--seed", chk.seed, "--reps", 1, "--shapes", shapes], trace, timeout=1700)
-    if replay:
-        core.replay_filter(trace, replay)
 
     def weight(e):
         bits = 12 * max(len(e.get("a", e.get("n", []))), len(e.get("b", e.get("p", []))), 1)
         return 1 + (bits // 64) ** 2
 
-    res = core.validate_trace("gcd/GcdTrace.tla", "GcdTrace.cfg", trace, timeout=1700, weight=weight)
-    chk.add_tv(res)
+    res = None
+    for profile in (["release", "relcheck"] if thorough else ["release"]):
+        tr = trace if profile == "release" else os.path.join(w, "trace_relcheck.ndjson")
+        core.run_driver(["c09", "--seed", chk.seed, "--reps", 1, "--shapes", shapes], tr, timeout=1700, profile=profile)
+        if replay:
+            core.replay_filter(tr, replay)
+        r = core.validate_trace("gcd/GcdTrace.tla", "GcdTrace.cfg", tr, timeout=1700, weight=weight, tag="GcdTrace-" + profile)
+        chk.add_tv(r)
+        if res is None:
+            res = r
+        else:
+            res["rejects"] = res["rejects"] + r["rejects"]
     evs = core.read_ndjson(trace)
     trivial = ("azero", "bzero", "bothzero")
     chk.count(evs, lambda e: None if e["shape"]["rel"] in trivial else (e["op"], e["case"]))
